@@ -352,6 +352,9 @@ def synthetic():
 
 
 MUTANTS = [
+    Mutant('same-grid-fast-path-merges-whole-sets', RES, 'combine_simulation_results',
+           [('regex', r'(\n    union = SimulationResults\(\))', r'\n    if simresults1.params == simresults2.params:\n        fast = copy.deepcopy(simresults1)\n        fast.merge_all_results(simresults2)\n        return fast\1')],
+           r'C06\.f:combine_simulation_results:per-combination'),
     Mutant('clear-operand-list', RES, 'Result.merge',
            [('replace', 'self._value_list.extend(other._value_list)', 'self._value_list.extend(other._value_list)\n        other._value_list.clear()')],
            r'C06\.a:Result\.merge:other'),
